@@ -251,10 +251,11 @@ def _random_case(r, maxlen):
 
 
 def generate(ctx):
-    for c in _exhaustive(ctx):
-        yield c
+    if os.environ.get('VERIF_C10_FAMILY', '') != 'random':        # development aid: look at one family only
+        for c in _exhaustive(ctx):
+            yield c
     rng = ctx.rng.fork('random')
-    n = ctx.pick(2500, 40000)
+    n = ctx.pick(5000, 40000)
     for i in range(n):
         yield _random_case(rng.fork(i), 40)
 
@@ -593,6 +594,8 @@ def run_impl(case):
                 raise ValueError(nm)
         except IndexError:
             res = Sym('no-such-instance')        # only after shrinking removed a creation
+        if isinstance(res, Sym) and res != 'ok':
+            stats['result_' + str(res)] = stats.get('result_' + str(res), 0) + 1
         obs.append(res)
     state = [[[k, _canon(v)] for k, v in inst.__dict__.items()] for inst in insts]
     links = []
